@@ -67,12 +67,22 @@ def docfilters : P String := do
   let cands := match lastContentText 0 none rel with
     | none => []
     | some last => leadCandidates last 0 rel
+  -- where the harness could locate the nodes: (element index, depth difference, figure ancestor)
+  let k ← nat
+  let geo ← many k (do let i ← nat; let d ← nat; let f ← bool; pure (i, d, f))
   if cands.length != scores.length then
     pure s!"atom-miss candidates={cands.length} scores={scores.length}"
   else
     let score : Nat → Int := fun i => match indexOf? cands i with
       | some k => nthD scores k
       | none => 0
+    -- the model's own score of every located candidate against the score the implementation logged
+    let bad := cands.filter fun i => match geo.find? (fun g => g.1 == i) with
+      | some (_, d, f) => imageScore d f != score i
+      | none => false
+    if !bad.isEmpty then
+      pure s!"score-mismatch at elements {bad} model={bad.map fun i => match geo.find? (fun g => g.1 == i) with | some (_, d, f) => imageScore d f | none => 0} logged={bad.map score}"
+    else
     match docFilters score es with
     | none => pure "panic retainer-underflow"
     | some out => pure s!"ok {flagsStr out}"
